@@ -517,16 +517,46 @@ func decide(b *ssa.BasicBlock, idx int) (key string, val bool) {
 		return "", false
 	}
 	base, neg := StripNot(ifi.Cond)
-	if _, isPhi := base.(*ssa.Phi); isPhi {
-		return "", false
-	}
 	if _, isConst := base.(*ssa.Const); isConst {
 		return "", false
 	}
-	if !pureCond(base, 0) {
-		return "", false
+	// one and the same SSA value tested twice: if it is computed outside every loop it is computed once, and both
+	// tests see the same truth value (a flag such as isUpCounting consulted in several places)
+	_, isPhi := base.(*ssa.Phi)
+	if !isPhi && pureCond(base, 0) {
+		return Canon(base), (idx == 0) != neg // the same pure expression, wherever it is written
 	}
-	return Canon(base), (idx == 0) != neg
+	if in, ok := base.(ssa.Instruction); ok && in.Block() != nil && onceOnly(in.Block()) {
+		return fmt.Sprintf("val@%p", base), (idx == 0) != neg
+	}
+	return "", false
+}
+
+var onceOnlyCache = map[*ssa.BasicBlock]bool{}
+
+// onceOnly: the block lies on no cycle of the control-flow graph.
+func onceOnly(b *ssa.BasicBlock) bool {
+	if v, ok := onceOnlyCache[b]; ok {
+		return v
+	}
+	seen := map[*ssa.BasicBlock]bool{}
+	work := append([]*ssa.BasicBlock{}, b.Succs...)
+	cyc := false
+	for len(work) > 0 && !cyc {
+		x := work[len(work)-1]
+		work = work[:len(work)-1]
+		if x == b {
+			cyc = true
+			break
+		}
+		if seen[x] {
+			continue
+		}
+		seen[x] = true
+		work = append(work, x.Succs...)
+	}
+	onceOnlyCache[b] = !cyc
+	return !cyc
 }
 
 // step returns the state reached by taking successor i of st.b, or ok=false if the edge is cut,
